@@ -1038,6 +1038,12 @@ def I2(ctx, rule, tb, inc_idx):
     why = "no adaptor recording ids behind the raw interruptible stream"
     if len(fm) == 1:
         fcl = fl._closure_body_of_operand(tb, fm[0][1]["args"][1])
+        if fcl is not None and not any((callee_path(t) or "").endswith("Vec::<T, A>::push") for _, t in fcl.calls()):
+            # the closure only forwards to a named private function (`move |o| fn_id_track_unless_interrupted(ids, o)`)
+            hs_ = [fb.bodies[callee_path(t)] for _, t in fcl.calls() if (callee_path(t) or "") in fb.bodies and fb.bodies[callee_path(t)].kind == "fn"]
+            hs_ = [h for h in hs_ if any((callee_path(t) or "").endswith("Vec::<T, A>::push") for _, t in h.calls())]
+            if len(hs_) == 1:
+                fcl = hs_[0]
         if fcl is not None:
             pushes = [(bb, t) for bb, t in fcl.calls() if (callee_path(t) or "").endswith("Vec::<T, A>::push")]
             takes = [(bb, t) for bb, t in fcl.calls() if callee_path(t) == TAKE]
@@ -1195,11 +1201,26 @@ def O_rules(ctx, rule="O"):
     for bb, si, s in newb.stmts():
         if s["k"] == "assign" and s["rv"]["k"] == "agg" and s["rv"].get("def") == "stream_outcome::StreamOutcome":
             agg = s
+    via_ctor = None
+    if agg is None:
+        # `new` may hand its parts to a private all-fields constructor (`Self::with_state(value, state, processed, not_processed)`)
+        for bb_, t_ in newb.calls():
+            W = fb.bodies.get(callee_path(t_) or "")
+            if W is None or W.kind != "fn" or (fb.fns.get(W.id) or {}).get("public") or "StreamOutcome" not in t_["dest"]["ty"]:
+                continue
+            for bbw, siw, sw in W.stmts():
+                if sw["k"] == "assign" and sw["rv"]["k"] == "agg" and sw["rv"].get("def") == "stream_outcome::StreamOutcome":
+                    exs = [strip_refs(expr_operand(W, o)) for o in sw["rv"]["ops"]]
+                    if all(e_.kind == "arg" for e_ in exs):
+                        agg = sw
+                        via_ctor = (t_, [e_[1] for e_ in exs])
     if agg is None:
         ctx.unverifiable(rule + "2", "new-agg", m.where(newb), "StreamOutcome construction not found")
     else:
         fields = agg["rv"]["fields"]
         ops = agg["rv"]["ops"]
+        if via_ctor is not None:
+            ops = [via_ctor[0]["args"][k_ - 1] for k_ in via_ctor[1]]
         def src_of(name):
             return strip_refs(expr_operand(newb, ops[fields.index(name)]))
         ps = src_of("fn_ids_processed")
@@ -2142,6 +2163,13 @@ def G_rules(ctx, rule="G"):
                 if ge.kind == "arg" and chain[k][0] == "inline:" + cur_body.id and 1 <= ge[1] <= len(chain[k][2][2]):
                     ge = peel(strip_refs(chain[k][2][2][ge[1] - 1]))
                     cur_body = chain[k][1]
+            if cur_body.id != fg.id and ge.kind == "arg" and cur_body.kind == "fn" and not (fb.fns.get(cur_body.id) or {}).get("public"):
+                # the copy lives in a private step of from_graph (`Self::edges_copy(fn_graph, &mut graph)`): its parameter is what
+                # from_graph passes at its only call
+                cs_ = [(cb_, cbb_, ct_) for (cb_, cbb_, ct_) in fl.call_sites().get(cur_body.id, []) if not fb.is_test_body(cb_)]
+                if len(cs_) == 1 and cs_[0][0].id == fg.id and ge[1] - 1 < len(cs_[0][2]["args"]) and not cond_guards(fg, cs_[0][1]):
+                    ge = peel(strip_refs(expr_operand(fg, cs_[0][2]["args"][ge[1] - 1])))
+                    cur_body = fg
             g_ok = ge == E(("arg", 1)) and cur_body.id == fg.id and not wrong_field
         ok2 = has_raw and not sel and tup_ok and g_ok
         if not ok2:
